@@ -408,10 +408,33 @@ class FixSym:
                     op = "==" if isinstance(test.ops[0], ast.Eq) else "!="
                     out += self.truth(("bool", op, a, b), s3)
             return out
+        if isinstance(test, ast.Compare) and len(test.ops) == 1 and isinstance(test.ops[0], (ast.Lt, ast.LtE, ast.Gt, ast.GtE)):
+            out = []
+            for a, s2 in self.ev(fr, test.left, st):
+                for b, s3 in self.ev(fr, test.comparators[0], s2):
+                    t = self.order_of_counts(test.ops[0], a, b)
+                    out += self.truth(t, s3) if t is not None else [(True, s3.copy()), (False, s3.copy())]
+            return out
         out = []
         for t, s2 in self.ev(fr, test, st):
             out += self.truth(t, s2)
         return out
+
+    @staticmethod
+    def order_of_counts(op, a, b):
+        """class counts of two partitions of one refinement chain compared by order: refining never merges classes (the
+        own class comes first in the refinement key, R-OWNFIRST), so the later partition has at least as many classes and
+        `later > earlier` says the same as `later != earlier`"""
+        if not (isinstance(a, tuple) and isinstance(b, tuple) and a[:1] == ("cnt",) and b[:1] == ("cnt",) and a[1] == b[1] and a[2] != b[2]):
+            return None
+        later_left = a[2] > b[2]
+        strict = isinstance(op, (ast.Lt, ast.Gt))
+        left_greater = isinstance(op, (ast.Gt, ast.GtE))
+        if left_greater == later_left:
+            # later > earlier  /  later >= earlier
+            return ("bool", "!=", a, b) if strict else ("int", 1)
+        # later < earlier (never)  /  later <= earlier (equal)
+        return ("int", 0) if strict else ("bool", "==", a, b)
 
     def truth(self, t, st):
         if isinstance(t, tuple) and t[0] == "bool":
@@ -491,6 +514,13 @@ class FixSym:
             for a, s2 in self.ev(fr, e.left, st):
                 for b, s3 in self.ev(fr, e.comparators[0], s2):
                     out.append((("bool", "==" if isinstance(e.ops[0], ast.Eq) else "!=", a, b), s3))
+            return out
+        if isinstance(e, ast.Compare) and len(e.ops) == 1 and isinstance(e.ops[0], (ast.Lt, ast.LtE, ast.Gt, ast.GtE)):
+            out = []
+            for a, s2 in self.ev(fr, e.left, st):
+                for b, s3 in self.ev(fr, e.comparators[0], s2):
+                    t = self.order_of_counts(e.ops[0], a, b)
+                    out.append((t if t is not None else UNK("order comparison"), s3))
             return out
         if isinstance(e, ast.UnaryOp) and isinstance(e.op, ast.Not):
             out = []
